@@ -18,6 +18,7 @@ import (
 	"encoding/json"
 	"flag"
 	"fmt"
+	"io"
 	"math/big"
 	"os"
 	"path/filepath"
@@ -25,7 +26,6 @@ import (
 
 	dsecp "github.com/decred/dcrd/dcrec/secp256k1/v4"
 	decdsa "github.com/decred/dcrd/dcrec/secp256k1/v4/ecdsa"
-	"github.com/hyperledger/firefly-common/pkg/log"
 	"github.com/hyperledger/firefly-signer/pkg/ethsigner"
 	"github.com/hyperledger/firefly-signer/pkg/ethtypes"
 	"github.com/hyperledger/firefly-signer/pkg/secp256k1"
@@ -697,7 +697,7 @@ func (g *gen) mutateRS(b *base, r *cv.Rand) {
 	g.addAll("mut:RS-swapped", assemble(b.typed, l), b.chain, false)
 }
 
-func (g *gen) mutateV(b *base) {
+func (g *gen) mutateV(b *base, direct bool) {
 	vi := len(b.elems) - 3
 	trueV := new(big.Int).SetBytes(b.elems[vi].data)
 	c := big.NewInt(b.chain)
@@ -715,12 +715,12 @@ func (g *gen) mutateV(b *base) {
 		}
 		l := append([]*elem{}, b.elems...)
 		l[vi] = num(v)
-		g.addAll("mut:V", assemble(b.typed, l), b.chain, true)
+		g.addAll("mut:V", assemble(b.typed, l), b.chain, direct)
 	}
 	for _, e := range []*elem{lst(), lst(str([]byte{27})), str([]byte{0, 27}), str([]byte{0})} {
 		l := append([]*elem{}, b.elems...)
 		l[vi] = e
-		g.addAll("mut:V-shape", assemble(b.typed, l), b.chain, true)
+		g.addAll("mut:V-shape", assemble(b.typed, l), b.chain, direct)
 	}
 }
 
@@ -824,8 +824,7 @@ func main() {
 		os.Exit(2)
 	}
 	os.MkdirAll(*out, 0o755)
-	logrus.SetLevel(logrus.PanicLevel) // the recovery functions log every refusal
-	log.SetLevel("panic")
+	logrus.SetOutput(io.Discard) // the recovery functions log every refusal
 	header := "From Coq Require Import String List NArith ZArith Uint63.\nFrom FFS Require Import Base.Bytes Base.Lit Tx.RunC10.\nImport ListNotations.\nOpen Scope string_scope. Open Scope N_scope."
 	st := cv.NewStats()
 	g := &gen{st: st, seen: map[string]bool{}}
@@ -937,29 +936,32 @@ func main() {
 	}
 
 	// --- structure-aware mutation ---
-	nFull := 4 // bases receiving the expensive mutation families (one per mode)
+	// the expensive mutation families go to one base per mode, each with a different field set;
+	// the cheaper ones to a further share of the bases
+	isFull := func(i int) bool { return i%4 == (i/4)%4 && i < 16 }
+	nLight := 10
 	if thorough {
-		nFull = 24
+		isFull = func(i int) bool { return i < 40 }
+		nLight = len(bases)
 	}
+	light := 0
 	for i, b := range bases {
-		full := i < nFull || (i < 12 && i%4 == i/4) // spread over modes and field sets
-		if thorough {
-			full = i < nFull
-		}
-		if full {
+		if isFull(i) {
 			g.mutateElements(b, r, true)
 			g.mutateRS(b, r)
-			g.mutateV(b)
+			g.mutateV(b, true)
 			g.truncations(b, true)
 			g.resignedShapes(b, r)
 			g.mutateTo(b, r)
 			g.chains(b)
-		} else if i < 20 || thorough {
+		} else if light < nLight {
+			light++
 			g.mutateElements(b, r, false)
-			g.mutateV(b)
 			g.truncations(b, false)
-			if i%2 == 0 {
+			if light%2 == 0 {
 				g.resignedShapes(b, r)
+			} else {
+				g.mutateV(b, false)
 			}
 		}
 	}
